@@ -48,8 +48,13 @@ def place_demo(seed_dir, n, wt):
                     where = cand
                     break
         shutil.copy(t, os.path.join(wt, where, "zz_demo%d_test.go" % n))
-        return "go test -vet=off -count=1 -run . ./%s/ 2>&1 | tail -40; exit ${PIPESTATUS[0]}" % where if where != "cmd/arcaflow-codegen" \
-            else "go test -vet=off -count=1 ./... 2>&1 | tail -40; exit ${PIPESTATUS[0]}", (wt if where != "cmd/arcaflow-codegen" else os.path.join(wt, where))
+        import re
+        tag = re.search(r"//go:build (\w+)", open(t).read(300))
+        tags = ("-tags %s " % tag.group(1)) if tag else ""
+        run = re.findall(r"func (Test\w+)\(", open(t).read())
+        sel = "-run '^(%s)$' " % "|".join(run) if run else ""
+        return "go test -vet=off -count=1 %s%s./%s/ 2>&1 | tail -40; exit ${PIPESTATUS[0]}" % (tags, sel, where) if where != "cmd/arcaflow-codegen" \
+            else "go test -vet=off -count=1 %s./... 2>&1 | tail -40; exit ${PIPESTATUS[0]}" % tags, (wt if where != "cmd/arcaflow-codegen" else os.path.join(wt, where))
     raise SystemExit("no demonstration found for seed %d in %s" % (n, seed_dir))
 
 
